@@ -1,3 +1,47 @@
 package c05
 
-func registerMatchers() {}
+import (
+	"math"
+	"math/big"
+	"strings"
+
+	"verif/internal/refjs"
+	"verif/internal/run"
+)
+
+// bigIntKindDigits is the deviation model of KF-C05-go-int64-exact-digits: a
+// number injected through Otto.Set as a Go int/int64/uint/uint64 beyond 2^53
+// keeps its integer kind inside otto and is converted to text with all its
+// decimal digits instead of the 9.8.1 shortest form. A failing line is
+// attributed only if replacing the 9.8.1 text of that operand by its exact
+// integer digits in the expected line gives exactly otto's line.
+func bigIntKindDigits(f *run.Failure) bool {
+	in, ok := f.In.(Input)
+	if !ok || f.Kind != "mismatch" {
+		return false
+	}
+	exp := f.Expected
+	changed := false
+	for _, v := range []Val{in.A, in.B} {
+		switch v.Go {
+		case "int", "int64", "uint", "uint64":
+		default:
+			continue
+		}
+		x := float64(v.F)
+		if math.Abs(x) <= 9007199254740992 || math.IsInf(x, 0) || x != x {
+			continue
+		}
+		spec := refjs.NumberToString(x)
+		exact := new(big.Float).SetFloat64(x).Text('f', 0)
+		if strings.Contains(exp, spec) {
+			exp = strings.ReplaceAll(exp, spec, exact)
+			changed = true
+		}
+	}
+	return changed && exp == f.Actual
+}
+
+func registerMatchers() {
+	run.RegisterMatcher("c05.dev.goInt64ExactDigits", bigIntKindDigits)
+}
